@@ -241,8 +241,8 @@ Proof.
   - cbn [obj_loop]. rewrite (entryOffLen_spec its Hok) by lia. cbn [lift jbind].
     destruct (container_item_at s flags (Z.of_nat n) its i Hvis ltac:(lia)) as [Hle Hsub]. fold ds in Hle, Hsub.
     replace (ds + (0 + tot its i)) with (ds + tot its i) by lia.
-    destruct (ds + tot its i + blen (snd (item_at its i)) <=? len s) eqn:E; [|lia]. clear E.
     pose proof (tot_nonneg its i) as H0. pose proof (blen_nonneg (snd (item_at its i))) as Hb.
+    destruct ((blen (snd (item_at its i)) >=? 0) && (ds + tot its i + blen (snd (item_at its i)) <=? len s)) eqn:E; [|lia]. clear E.
     destruct (slice_ok s (ds + tot its i) (ds + tot its i + blen (snd (item_at its i)))) as [r Hr];
       try (subst ds; lia). { pose proof (len_le_cap s). lia. }
     rewrite Hr. cbn [lift jbind].
@@ -339,7 +339,7 @@ Lemma P_str x : P (JStr x).
 Proof.
   intros f s base o je _ _ Ho _ _ Hlen Hsub Hty _. cbn [enc_value fst snd] in *. unfold decodeJEntry. rewrite Hty.
   change (JENTRY_ISSTRING =? jeString) with true. cbv iota zeta.
-  destruct (o + blen x <=? len s) eqn:E; [|lia]. clear E. pose proof (blen_nonneg x).
+  pose proof (blen_nonneg x). destruct ((blen x >=? 0) && (o + blen x <=? len s)) eqn:E; [|lia]. clear E.
   destruct (slice_within s o (o + blen x)) as (r & Hr & Hv); try lia.
   rewrite Hr. cbn [lift jbind]. rewrite Hv, Hsub. reflexivity.
 Qed.
